@@ -10,6 +10,18 @@
                                   observe the SAME view object.
                                   result: (1 e) | (2) constructor failure | (0 (2)) reshape_mut
                                   panics | (0 (0 observation)) with the observation of op 1
+     (2 4 shape layout names req)      a source OUTSIDE the algebra: a user-implemented TensorRef over a
+                                  tensor of `shape` (valid) claiming `layout` ((0 names) | (1) | (2),
+                                  any D names, possibly not the shape's).  result: three outcomes
+                                  (TensorRename::from(src, names).data_layout()
+                                   TensorTranspose::try_from(src, req).map(data_layout)
+                                   TensorAccess::from_memory_order(src).map(shape) as () | (shape)
+                                   D = 2: (MatrixRefTensor::from(src).data_layout()), else ())
+     (2 5 term n0 n1 probes)      term 2-dimensional: MatrixRefTensor::from(view), then
+                                  TensorRefMatrix::with_names(that, [n0, n1]).  result: (1 e) | (2)
+                                  term constructor failure | (0 (mlayout (1 e))) with_names refuses
+                                  | (0 (mlayout (0 (shape layout (probe ...))))), mlayout = 0 RowMajor
+                                  / 1 ColumnMajor / 2 Other as MatrixRefTensor reports it
    term :=
      (0 id shape)                         leaf Tensor, element at flat offset k is id*1000 + k
      (1 term params) | (2 term params)    TensorRange | TensorMask
@@ -30,6 +42,16 @@
                                           above it is read-only: such cases carry no writes);
                                           all index-transparent = VWrap in the model
      (12 id rows cols name0 name1)        TensorRefMatrix::with_names over a Matrix (row major)
+     (tag term args via), tag in 1..8     the CONVENIENCE constructor for that adaptor
+                                          (Model/ViewsConv.v): via 1 = TensorView::xxx_owned,
+                                          2 = TensorView::xxx_mut, 3 = TensorView::xxx(&self) (the
+                                          source becomes `&S`: read-only above, no writes),
+                                          4 = Tensor::xxx(&self), 5 = Tensor::xxx_mut (term must be
+                                          a leaf).  range / mask: args = (0 0 named) only;
+                                          select / expand: exactly one pair; rename_view /
+                                          transpose_view: via 3 / 4 only.  index_by* and
+                                          transpose_view panic where try_from reports the error:
+                                          the harness checks that and prints the error.
    probes := ((i ...) ...)   index tuples of the view's dimensionality
    writes := (((i ...) value) ...)   applied in order through get_reference_mut
    leaf ids must be pairwise distinct.
@@ -43,7 +65,7 @@
      flags    := 1/0 per write (landed / index absent); dump := every leaf's data after the writes
    errors: see the e_* encoders of Model/Views.v. *)
 From Coq Require Import List ZArith NArith Bool Arith.
-From EasyML Require Import Base.Sx Model.Shape Model.Views Model.ViewsMut.
+From EasyML Require Import Base.Sx Model.Shape Model.Views Model.ViewsMut Model.ViewsConv.
 Import ListNotations.
 Open Scope N_scope.
 
@@ -65,6 +87,22 @@ Definition dparams (s : sx) : option rparams :=
   | SL [SZ 1%Z; strict; l] =>
       match dbool strict, dlist (dopt drange) l with Some b, Some l => Some (PAll b l) | _, _ => None end
   | _ => None
+  end.
+
+(* via: 1 = TensorView::xxx_owned, 2 = TensorView::xxx_mut, 3 = TensorView::xxx (by reference),
+        4 = Tensor::xxx (by reference), 5 = Tensor::xxx_mut; 4 and 5 only directly over a leaf *)
+Definition dform (via : Z) : option conv_form :=
+  match via with
+  | 1%Z => Some ByOwned
+  | 2%Z | 5%Z => Some ByMut
+  | 3%Z | 4%Z => Some ByRef
+  | _ => None
+  end.
+Definition via_ok (via : Z) (v : view) : bool :=
+  match via, v with
+  | 4%Z, VTensor _ _ | 5%Z, VTensor _ _ => true
+  | 4%Z, _ | 5%Z, _ => false
+  | _, _ => true
   end.
 
 Fixpoint dview (fuel : nat) (s : sx) : option view :=
@@ -105,6 +143,31 @@ Fixpoint dview (fuel : nat) (s : sx) : option view :=
           | Some vs, Some n => Some (VChain vs n) | _, _ => None end
       | SL [SZ 11%Z; t; SZ _] =>
           match dview f t with Some v => Some (VWrap v) | None => None end
+      (* the convenience constructors (Model/ViewsConv.v): (tag t args via) *)
+      | SL [SZ tag; t; args; SZ via] =>
+          match dview f t, dform via with
+          | Some v, Some fm =>
+              if via_ok via v then
+                match tag with
+                | 1%Z => match dparams args with
+                         | Some (PNamed false named) => Some (conv_range fm v named) | _ => None end
+                | 2%Z => match dparams args with
+                         | Some (PNamed false named) => Some (conv_mask fm v named) | _ => None end
+                | 3%Z => match dlist (dpair dnat dN) args with
+                         | Some [p] => Some (conv_select fm v p) | _ => None end
+                | 4%Z => match dlist (dpair dnat dnat) args with
+                         | Some [e] => Some (conv_expand fm v e) | _ => None end
+                | 5%Z => match dnames args, fm with
+                         | Some ns, ByRef => Some (conv_rename_view v ns) | _, _ => None end
+                | 6%Z => match dnames args with Some ns => Some (conv_reverse fm v ns) | None => None end
+                | 7%Z => match dnames args with Some ns => Some (conv_index_by fm v ns) | None => None end
+                | 8%Z => match dnames args, fm with
+                         | Some ns, ByRef => Some (conv_transpose_view v ns) | _, _ => None end
+                | _ => None
+                end
+              else None
+          | _, _ => None
+          end
       | _ => None
       end
   end.
@@ -194,6 +257,40 @@ Definition c02_mutated (v : view) (sh' : shape) (probes : list (list N)) (writes
     | None => SL [SZ (-1)]
     end) (v_ctor v).
 
+(* op 4: a user-implemented source (view_shape sh, data_layout lay) under the adaptors that derive
+   their layout from it *)
+Definition dlayout (s : sx) : option layout :=
+  match s with
+  | SL [SZ 0%Z; ns] => option_map Linear (dnames ns)
+  | SL [SZ 1%Z] => Some NonLinear
+  | SL [SZ 2%Z] => Some Other
+  | _ => None
+  end.
+Definition layout_arity_ok (D : nat) (l : layout) : bool :=
+  match l with Linear order => Nat.eqb (length order) D | _ => true end.
+Definition smlayout (m : mlayout) : sx :=
+  SZ match m with RowMajor => 0 | ColumnMajor => 1 | MOther => 2 end%Z.
+Definition c02_foreign (sh : shape) (lay : layout) (ns req : list name) : sx :=
+  SL [ soutcome slayout (foreign_rename sh lay ns);
+       soutcome slayout (foreign_transpose sh lay req);
+       soutcome (sopt sshape) (foreign_memory_order sh lay);
+       if Nat.eqb (length sh) 2 then SL [smlayout (matrix_ref_tensor_layout sh lay)] else SL [] ].
+
+(* op 5: a 2-dimensional view through MatrixRefTensor and back through TensorRefMatrix *)
+Definition c02_trip (v : view) (n0 n1 : name) (probes : list (list N)) : sx :=
+  soutcome (fun c =>
+    match c_layout c with
+    | Ok lay =>
+        if Nat.eqb (length (c_shape c)) 2 && forallb (fun p => Nat.eqb (length p) 2) probes then
+          SL [ smlayout (matrix_ref_tensor_layout (c_shape c) lay);
+               soutcome (fun r => match r with
+                                  | (sh, lay', get) =>
+                                      SL [sshape sh; slayout lay'; slist (sopt svalue) (map get probes)]
+                                  end) (matrix_trip c n0 n1) ]
+        else SL [SZ (-1)]
+    | _ => SL [SZ (-1)]
+    end) (v_ctor v).
+
 Fixpoint has_bad (fuel : nat) (s : sx) : bool :=
   match fuel with
   | O => false
@@ -220,6 +317,23 @@ Definition run_c02 (args : list sx) : sx :=
       | Some v, Some sh', Some probes, Some writes =>
           if nodup_b (v_leaf_ids v) then
             let r := c02_mutated v sh' probes writes in
+            if has_bad 3 r then bad_case else r
+          else bad_case
+      | _, _, _, _ => bad_case
+      end
+  | [SZ 4%Z; sh; lay; ns; req] =>
+      match dshape sh, dlayout lay, dnames ns, dnames req with
+      | Some sh, Some lay, Some ns, Some req =>
+          if valid_shape_b sh && layout_arity_ok (length sh) lay
+             && Nat.eqb (length ns) (length sh) && Nat.eqb (length req) (length sh)
+          then c02_foreign sh lay ns req else bad_case
+      | _, _, _, _ => bad_case
+      end
+  | [SZ 5%Z; t; n0; n1; probes] =>
+      match dview 40 t, dnat n0, dnat n1, dlist didx probes with
+      | Some v, Some n0, Some n1, Some probes =>
+          if nodup_b (v_leaf_ids v) then
+            let r := c02_trip v n0 n1 probes in
             if has_bad 3 r then bad_case else r
           else bad_case
       | _, _, _, _ => bad_case
